@@ -892,6 +892,12 @@ def rule_it(ctx):
                 if any(t in ('int', 'numbers.Integral', 'Integral', 'np.integer', 'numpy.integer') for t in types):
                     n += 1
                     ok = any(t in ('numbers.Integral', 'Integral') for t in types)
+                    nonscalar = [t for t in types if t.split('.')[-1] in ('ndarray', 'list', 'tuple', 'slice', 'Sequence', 'Iterable')]
+                    if nonscalar:
+                        rep.ob('IT', K.key(cls, '__getitem__', 'scalar-path-for-scalar-indices-only'), False, c,
+                               'the branch for integer indices is also taken for %s: an index array / list is used like one '
+                               'position (e.g. `self.slice[array]` on a tuple of positions raises, or selects by fancy indexing '
+                               'what must become a nested selection)' % nonscalar)
                     rep.ob('IT', K.key(cls, '__getitem__', 'integer-indices-by-numbers.Integral'), ok, c,
                            '' if ok else 'integer indices are recognised with %s only: numpy integers (what every index array of '
                            'a slice / shuffle / sort / shard contains) fall through to the fallback branch' % types,
